@@ -26,6 +26,9 @@ Inductive ostep :=
          (resp : response)             (* what the scripted handler returns for it *)
          (o_evs : list bytes)          (* subject keys of the events the handler was called with *)
          (o_states : list key_state)   (* KeyStates it was given, sorted by subject key *)
+| OBatchE (evs : list bytes) (resp : response) (o_evs : list bytes) (o_states : list key_state)
+                                       (* as OBatch, but the sink write of the batch failed after the handler call and
+                                          HandleEvent returned that error: the mutations are applied all the same *)
 | OFail (evs : list bytes)             (* a storage read fault was armed for this batch and HandleEvent returned the
                                           error: no handler call; the batch's events are gone, nothing is applied *)
 | OCkpt (id : N)
@@ -40,7 +43,7 @@ Definition memo_kgf (count : N) (tbl : list (bytes * N)) (k : bytes) : N :=
   match assoc_bytes k tbl with Some g => g | None => key_group count k end.
 Definition step_keys (st : ostep) : list bytes :=
   match st with
-  | OBatch evs resp o_evs o_states => evs ++ map kr_key resp ++ o_evs ++ map fst o_states
+  | OBatch evs resp o_evs o_states | OBatchE evs resp o_evs o_states => evs ++ map kr_key resp ++ o_evs ++ map fst o_states
   | OFail evs => evs
   | _ => []
   end.
@@ -135,7 +138,7 @@ Definition dedup (l : list N) : list N := fold_right (fun x acc => if existsb (N
 
 Definition check_step (kgf : bytes -> N) (y : cst) (st : ostep) : cst * list N :=
   match st with
-  | OBatch evs resp o_evs o_states =>
+  | OBatch evs resp o_evs o_states | OBatchE evs resp o_evs o_states =>
       let keys := sort_keys (distinct_keys [] evs) in
       let model := match fetch_states list_kv kgf keys (c_db y) with FOk sts _ => Some sts | _ => None end in
       let db' := fold_left (apply_result list_kv kgf (fun _ _ => true)) resp (c_db y) in
